@@ -24,6 +24,10 @@ fn base_pairs(key: &KeyMat, n: usize, tp: Option<&zkryptium::cl03::keys::CL03Com
 
 /// C17 on one frame
 pub fn check_openings(cx: &mut Cx, frame: &str, v: &Value, secrets: &[Secret], pairs: &[BasePair], decoy: &Integer, extra_challenges: &[(String, Integer)]) {
+    // dictionary attack through the range proofs: a response whose blinding term is zero or a
+    // multiple of 2^64 satisfies response = challenge * witness(candidate) (mod 2^64) for the
+    // committed value and for no other candidate
+    check_range_blinders(cx, "C17", frame, v, secrets);
     let objs = commitment_objects(v);
     // dictionary attack without any randomness: an integer of the frame that is a multiple (over
     // the integers) of g^m mod N for the committed m and not for the decoy identifies m
@@ -144,6 +148,7 @@ pub fn check_masking(cx: &mut Cx, frame: &str, v: &Value, secrets: &[Secret], ex
 
 pub fn check_masking_h(cx: &mut Cx, frame: &str, origin: &str, v: &Value, secrets: &[Secret], extra_challenges: &[(String, Integer)], hist: &mut History) {
     check_range_roots(cx, frame, v, secrets);
+    check_range_blinders(cx, "C19", frame, v, secrets);
     let ls = leaves(v);
     let bound = Integer::from(1) << 64u32;
     // candidate challenges: every leaf named challenge / C (and C mod 2^128), plus recomputed ones
@@ -230,6 +235,66 @@ pub fn check_range_roots(cx: &mut Cx, frame: &str, v: &Value, secrets: &[Secret]
                 cx.count("n.range_root_tests");
                 if Integer::from(&cand - &x.value).abs() < bound {
                     cx.violation("C19", format!("{frame}/{}/root-div/challenge/{}", generic_path(p), x.kind), format!("floor({p} / challenge)^2 >> {t_big}, mapped back into [a, b], is within 2^64 of the sender's {} (difference {}): the proof of square gives its root away", x.kind, Integer::from(&cand - &x.value)));
+                }
+            }
+        }
+    }
+}
+
+/// the witnesses the library derives for a range proof of `value` in [a, b] (Boudot with the
+/// factor 2^T): roots and remainders of 2^T (value - a) + tolerance and 2^T (b - value) + tolerance
+fn range_witnesses(value: &Integer, a: &Integer, b: &Integer) -> Option<[Integer; 4]> {
+    if value < a || value > b { return None; }
+    let width = Integer::from(b - a);
+    let t_big = 2 * (128 + 40 + 1) + width.significant_bits();
+    let tol = (Integer::from(1) << (40 + 128 + t_big / 2 + 1)) * width.sqrt();
+    let x = Integer::from(value << t_big);
+    let aa = Integer::from(a << t_big) - &tol;
+    let bb = Integer::from(b << t_big) + &tol;
+    let (x_a, x_b) = (Integer::from(&x - &aa), Integer::from(&bb - &x));
+    let (x_a_1, x_b_1) = (x_a.clone().sqrt(), x_b.clone().sqrt());
+    let x_a_2 = x_a - Integer::from(&x_a_1 * &x_a_1);
+    let x_b_2 = x_b - Integer::from(&x_b_1 * &x_b_1);
+    Some([x_a_1, x_a_2, x_b_1, x_b_2])
+}
+
+/// C19 inside the range proofs, second part: the omniscient checker derives the four witnesses of
+/// every range proof about a long secret and recomputes the blinding term of the four responses
+/// that answer for them (proof_ss.d of the two proofs of square, D_1 of the two larger-interval
+/// proofs): never zero, never negative, and never STRUCTURED -- a blinder whose low 64 bits are all
+/// zero (a multiple of a power of two) leaves the low bits of response = blinder + c * witness
+/// unmasked, and the witness is then read off the response modulo that power of two
+pub fn check_range_blinders(cx: &mut Cx, prop: &str, frame: &str, v: &Value, secrets: &[Secret]) {
+    let ls = leaves(v);
+    let one = Integer::from(1);
+    let intervals: Vec<(Integer, Integer)> = vec![
+        (Integer::from(0), Integer::from(&one << 256u32) - 1u32),
+        (Integer::from(&one << 257u32) + 1u32, Integer::from(&one << 258u32) - 1u32),
+    ];
+    let get = |p: &str| ls.iter().find(|(q, _)| q == p).map(|(_, x)| x.clone());
+    for (p, _) in &ls {
+        // one range proof = one object with an E_prime leaf
+        let Some(root) = p.strip_suffix(".E_prime") else { continue };
+        for (a, b) in &intervals {
+            for x in secrets.iter().filter(|x| x.value.significant_bits() > 128 && (x.kind == "hidden-attribute" || x.kind == "signature-e")) {
+                let Some(w) = range_witnesses(&x.value, a, b) else { continue };
+                let sites = [
+                    (format!("{root}.proof_of_tolerance.proof_of_square_a.proof_ss.d"), format!("{root}.proof_of_tolerance.proof_of_square_a.proof_ss.challenge"), &w[0], false),
+                    (format!("{root}.proof_of_tolerance.proof_large_i_a.D_1"), format!("{root}.proof_of_tolerance.proof_large_i_a.C"), &w[1], true),
+                    (format!("{root}.proof_of_tolerance.proof_of_square_b.proof_ss.d"), format!("{root}.proof_of_tolerance.proof_of_square_b.proof_ss.challenge"), &w[2], false),
+                    (format!("{root}.proof_of_tolerance.proof_large_i_b.D_1"), format!("{root}.proof_of_tolerance.proof_large_i_b.C"), &w[3], true),
+                ];
+                for (rp, cp, wit, low128) in sites {
+                    let (Some(resp), Some(c)) = (get(&rp), get(&cp)) else { continue };
+                    let c = if low128 { Integer::from(c.keep_bits_ref(128)) } else { c };
+                    let blinder = Integer::from(&resp - Integer::from(&c * wit));
+                    cx.count("n.range_blinders_recomputed");
+                    // (for a secret that is not the one this range proof is about the difference is a
+                    //  meaningless large number of either sign: only the two sharp tests apply)
+                    if blinder == 0 { cx.violation(prop, format!("{frame}/{}/blinder-is-zero/range-witness/{}", generic_path(&rp), x.kind), format!("{rp} = challenge * witness exactly (witness of the range proof about the sender's {})", x.kind)); }
+                    else if blinder > 0 && blinder.find_one(0).unwrap_or(0) >= 64 {
+                        cx.violation(prop, format!("{frame}/{}/blinder-structured/range-witness/{}", generic_path(&rp), x.kind), format!("the blinding term of {rp} is a multiple of 2^{}: {rp} mod 2^64 = (challenge * witness) mod 2^64, the low bits of the witness of the range proof about the sender's {} are not masked", blinder.find_one(0).unwrap_or(0), x.kind));
+                    }
                 }
             }
         }
